@@ -65,3 +65,14 @@ package configs
 //@   loop 1: each let k = lower(child.Name) in !iter(queueMap[k])
 //@   at[recurse] call configs.checkQueues#1: assert arg1 == wrap64(level + 1)
 //@   loop 2: each ncalls(configs.checkQueues) == iter(ncalls(configs.checkQueues)) + 1
+
+// every static placement path that starts with the root queue name - the bare root included - is kept for the hierarchy
+// check (a rule that targets a parent queue, root above all, is not resolvable)
+//@ spec abstract rootat(s string) int
+//@ func getLongestPlacementPaths(rules []PlacementRule) (paths []placementStaticPath, err error)
+//@   props C15
+//@   sweep
+//@   mode nopanic=off
+//@   at[rootprefix] call strings.Index#1: assert arg0 == path && arg1 == RootQueue
+//@   at[rootidx] call strings.Index#1 after: assume ret == rootat(arg0)
+//@   loop 1: each rootat(path) == 0 ==> len(paths) == iter(len(paths)) + 1
